@@ -3,6 +3,16 @@
    Definitions only. *)
 From LV Require Export Model.Plane Model.Propagate.
 
+(* helper.slice_offset(slice, shape) on every index expression it accepts: Ellipsis, a tuple holding Ellipsis and a
+   full slice ((..., :)), any other tuple holding Ellipsis (refused: the offset cannot be known), a pair of slices *)
+Inductive slice_arg := SlEllipsis | SlEllFull | SlEllOther | SlPair (r0 r1 c0 c1 : Z).
+Definition slice_offset_any (s : slice_arg) (sr sc : Z) : result (Z * Z) :=
+  match s with
+  | SlEllipsis | SlEllFull => Ok (0, 0)
+  | SlEllOther => Err ValueError
+  | SlPair r0 r1 c0 c1 => Ok (slice_offset (SBox r0 r1 c0 c1) sr sc)
+  end.
+
 Section Segment.
 Variable S : Scalar.
 
